@@ -284,12 +284,66 @@ fn run_batch(out: &mut CaseOut, w: usize, vals: &[i64], via: &[Via], zx_row: boo
     }
 }
 
+/// X and C entries on inputs wider than one bit: the values they stand for are 0 and 1, at any
+/// width (`X X 0 O` - four items -, `0 0 C O` - a 0, 1, 0 triple -, `X 0 C O`).
+fn run_xc(out: &mut CaseOut, w: usize, w2: usize) {
+    out.class("X-and-C-on-wide-inputs");
+    let sigs = vec![
+        Sig { name: "XA".into(), bits: w, kind: Kind::In(InVal::Val(0)) },
+        Sig { name: "XB".into(), bits: w2, kind: Kind::In(InVal::Val(0)) },
+        Sig { name: "CK".into(), bits: w, kind: Kind::Bidir(InVal::Val(0)) },
+        Sig { name: "O".into(), bits: 1, kind: Kind::Out },
+    ];
+    let header: Vec<String> = ["XA", "XB", "CK", "O"].iter().map(|s| s.to_string()).collect();
+    let n0 = || Entry::Num(0, Radix::Dec);
+    let stmts = vec![
+        Stmt::Row(0, vec![Entry::X(true), Entry::X(false), n0(), Entry::X(true)]),
+        Stmt::Row(1, vec![n0(), n0(), Entry::C(true), Entry::X(true)]),
+        Stmt::Row(2, vec![Entry::X(true), n0(), Entry::C(false), Entry::X(true)]),
+    ];
+    let text = canonical(&Program { header, stmts }).text;
+    let spec = DriverSpec::honest(&sigs, 7, Palette::Small);
+    render_case(out, &text, &sigs, Some(&spec));
+    let Some(tc) = load_wellformed(out, "c07", &text, &sigs) else {
+        return;
+    };
+    let real = run_real(&tc, &sigs, &spec, &RunOpts { max_next: 20, ..Default::default() });
+    // (XA, XB, CK) per item: X X 0 -> 4 items; 0 0 C -> 3; X 0 C -> 2 x 3
+    let want: Vec<(i64, i64, i64)> = vec![
+        (0, 0, 0), (1, 0, 0), (0, 1, 0), (1, 1, 0),
+        (0, 0, 0), (0, 0, 1), (0, 0, 0),
+        (0, 0, 0), (0, 0, 1), (0, 0, 0), (1, 0, 0), (1, 0, 1), (1, 0, 0),
+    ];
+    for (k, (a, b, c)) in want.iter().enumerate() {
+        let Some(RealItem::Row(_)) = real.items.get(k) else {
+            if let Some(RealItem::Panic(p)) = real.items.get(k) {
+                out.fail(p.key(), format!("item {k} panicked: {p}"));
+            } else {
+                out.fail("c07:no-row", format!("item {k}: expected a row, got {:?}", real.items.get(k).map(|i| i.short())));
+            }
+            return;
+        };
+        let sent = &real.log[k + 1].inputs;
+        let get = |n: &str| sent.iter().find(|e| e.0 == n).map(|e| e.1);
+        if get("XA") != Some(InVal::Val(*a)) || get("XB") != Some(InVal::Val(*b)) || get("CK") != Some(InVal::Val(*c)) {
+            out.fail(
+                "c07:x-or-c-not-0-or-1",
+                format!("item {k} of `X x 0 X` / `0 0 C X` / `X 0 c X` on inputs {w}, {w2} and {w} bits wide: the driver received XA={:?} XB={:?} CK={:?}, should be {a} {b} {c} (a don't-care stands for 0 and 1, a clock for 0, 1, 0, whatever the width)", get("XA"), get("XB"), get("CK")),
+            );
+            return;
+        }
+    }
+    if real.items.len() != want.len() || !real.ended {
+        out.fail("c07:extra-rows", format!("{} items, should be {}", real.items.len(), want.len()));
+    }
+}
+
 impl Property for C07 {
     fn id(&self) -> &'static str {
         "C07"
     }
     fn rule(&self) -> &'static str {
-        "profile `width`: (a) exhaustive sweep of every width 1..=64 x a 40-value boundary pool (0, +-1, MIN, MAX, 2^w-1, 2^w, 2^w+1, -2^w, 2^(w-1), ...) delivered directly / through arithmetic / through let, 8 values per program, on an input column, an output's expected column, a bidirectional signal's input and `_out` column and a virtual signal's column, plus a `Z x z Z X` row, in every second batch behind a `bits(2, 14)` entry feeding two extra inputs (3 and 1 bits wide: each gets exactly one bit of the value) (row entries and header columns then no longer line up one to one), in every fifth batch with 64 more one-bit outputs behind that are expected `X` in every row (columns 64 and up); (b) random (width, 64-bit value) pairs, values returning to the one two rows earlier (v, w, v), in a third of the programs the driver fails on one row's call and the caller goes on. Oracle: value & (2^w-1) in u64 (w=64 unchanged) against the input as received by the driver, row.inputs and the expected values; virtual column keeps 64 bits. Non-trivial: w >= 33 or the value has bits above w; distinct by (width, values, path)."
+        "profile `width`: (a) exhaustive sweep of every width 1..=64 x a 40-value boundary pool (0, +-1, MIN, MAX, 2^w-1, 2^w, 2^w+1, -2^w, 2^(w-1), ...) delivered directly / through arithmetic / through let, 8 values per program, on an input column, an output's expected column, a bidirectional signal's input and `_out` column and a virtual signal's column, plus a `Z x z Z X` row, in every second batch behind a `bits(2, 14)` entry feeding two extra inputs (3 and 1 bits wide: each gets exactly one bit of the value) (row entries and header columns then no longer line up one to one), in every fifth batch with 64 more one-bit outputs behind that are expected `X` in every row (columns 64 and up); (b) random (width, 64-bit value) pairs, one case in ten a fixed program with X and C entries on inputs wider than one bit (they stand for 0 / 1 and 0, 1, 0 at any width), values returning to the one two rows earlier (v, w, v), in a third of the programs the driver fails on one row's call and the caller goes on. Oracle: value & (2^w-1) in u64 (w=64 unchanged) against the input as received by the driver, row.inputs and the expected values; virtual column keeps 64 bits. Non-trivial: w >= 33 or the value has bits above w; distinct by (width, values, path)."
     }
     fn cases(&self, tier: Tier) -> u64 {
         match tier {
@@ -312,7 +366,7 @@ impl Property for C07 {
         v
     }
     fn required_classes(&self) -> Vec<&'static str> {
-        vec!["width=64", "width=63", "width=1", "width>=33", "bits-above-width", "negative", "row-after-driver-failure", "bits-entry-before-the-values", "header>=65-columns"]
+        vec!["width=64", "width=63", "width=1", "width>=33", "bits-above-width", "negative", "row-after-driver-failure", "bits-entry-before-the-values", "header>=65-columns", "X-and-C-on-wide-inputs"]
     }
     fn run(&self, s: &Streams) -> CaseOut {
         let mut out = CaseOut::new();
@@ -320,6 +374,7 @@ impl Property for C07 {
         let mut fail_at = None;
         let with_bits;
         let wide;
+        let mut xc = false;
         let (w, vals, via, zx) = if s[0].first() == Some(&SWEEP_MAGIC) {
             ch.raw();
             let w = (ch.raw() as usize).clamp(1, 64);
@@ -370,6 +425,7 @@ impl Property for C07 {
             }
             with_bits = ch.chance(1, 3);
             wide = ch.chance(1, 8);
+            xc = ch.chance(1, 10);
             (w, vals, via, zx)
         };
         out.class_if(w == 64, "width=64");
@@ -380,6 +436,10 @@ impl Property for C07 {
         out.class_if(above, "bits-above-width");
         out.class_if(vals.iter().any(|v| *v < 0), "negative");
         out.nontrivial = w >= 33 || above;
+        if xc {
+            run_xc(&mut out, w.max(2), if w % 2 == 0 { 1 } else { 5 });
+            return out;
+        }
         run_batch(&mut out, w, &vals, &via, zx, &s[1], fail_at, with_bits, wide);
         out
     }
